@@ -12,6 +12,7 @@ import (
 	"crypto/rand"
 	"crypto/rsa"
 	"crypto/x509"
+	"crypto/x509/pkix"
 	"encoding/asn1"
 	"encoding/base64"
 	"encoding/binary"
@@ -22,6 +23,7 @@ import (
 	"net/http"
 	"net/url"
 	"strings"
+	"time"
 
 	"github.com/Cloud-Foundations/keymaster/vf/vclock"
 	"github.com/Cloud-Foundations/keymaster/vf/vfeng"
@@ -511,7 +513,7 @@ func init() {
 	vfRegister(&vfeng.Check{
 		ID:    "C10",
 		Level: "model_checking",
-		Rule: "18 truncated / odd Authorization header values x every service route x {GET,POST}: no panic; client certificates signed by the role CA and by the operator CA carrying every corrupted address extension of the C11 catalogue (bit lengths 0..48, wrong families, 300 blocks, truncations, byte flips) on the refresh, certgen and profile routes from inside and outside: no panic; " +  "exhaustive products on the real handlers: (strength) 48 RSA (modulus bits x exponent) keys + P-224/256/384/521 + Ed25519 + DSA + X25519 + RSA-PSS OID x all six issuing paths in the encoding each path takes; (malformed) for each valid seed (SSH key line, PEM/base64url PKIX key, session cookie, OIDC code, access token, CLI token, U2F/WebAuthn JSON bodies): every truncation length, three substitutions per byte position, every DER length octet +-1, SSH algorithm-tag x blob cross product and wire-length fields, delivered to every route that parses that input; oracle: signed => strong key, weak/unknown => 4xx, no recovered panic",
+		Rule: "18 truncated / odd Authorization header values x every service route x {GET,POST}: no panic; client certificates with a P-224 / P-256 / Ed25519 / RSA-1024 / RSA-2048 key issued by the user CA, the role CA and the operator's client CA (with and without address extension) x every service route x {GET,POST}: no panic; client certificates signed by the role CA and by the operator CA carrying every corrupted address extension of the C11 catalogue (bit lengths 0..48, wrong families, 300 blocks, truncations, byte flips) on the refresh, certgen and profile routes from inside and outside: no panic; " +  "exhaustive products on the real handlers: (strength) 48 RSA (modulus bits x exponent) keys + P-224/256/384/521 + Ed25519 + DSA + X25519 + RSA-PSS OID x all six issuing paths in the encoding each path takes; (malformed) for each valid seed (SSH key line, PEM/base64url PKIX key, session cookie, OIDC code, access token, CLI token, U2F/WebAuthn JSON bodies): every truncation length, three substitutions per byte position, every DER length octet +-1, SSH algorithm-tag x blob cross product and wire-length fields, delivered to every route that parses that input; oracle: signed => strong key, weak/unknown => 4xx, no recovered panic",
 		Assumptions: []string{"RSA public keys with chosen moduli stand for weak keys (the server never needs the private half)", "byte-level mutation is exhaustive for single positions with three substitute values; multi-byte corruptions are out of the bound"},
 		Shards: func(tier string) int { return 16 },
 		Run: func(c *vfeng.Ctx) {
@@ -584,6 +586,70 @@ func init() {
 								c.Violate("C10|panic|client-certificate-address-extension|"+signer, fmt.Sprintf("client certificate with address extension %s (%x) on %s from %s: panic %v\n%s", cr.Name, cr.Value, path, remote, resp.Panic, c10Trim(resp.PanicStack)), p)
 							} else {
 								c.Class(fmt.Sprintf("cert-extension|%s|%d", signer, resp.Code), p)
+							}
+						}
+					}
+				}
+			}
+			// client certificates that chain to a trusted CA but whose own key is of a
+			// type the server's helpers may not be able to represent (SSH fingerprints,
+			// JOSE algorithms): every key type x issuing CA x every service route
+			{
+				p224, _ := ecdsa.GenerateKey(elliptic.P224(), rand.Reader)
+				rsa1024, _ := rsa.GenerateKey(rand.Reader, 1024)
+				ckeys := []struct {
+					name string
+					pub  crypto.PublicKey
+				}{{"p224", p224.Public()}, {"p256", vfKeys.userEC.Public()}, {"ed25519", vfKeys.userEd.Public()}, {"rsa1024", rsa1024.Public()}, {"rsa2048", vfKeys.userRSA.Public()}}
+				for _, ck := range ckeys {
+					for _, signer := range []string{"user-ca", "role-ca", "operator-ca", "operator-ca-user"} {
+						var leaf *x509.Certificate
+						tmpl := &x509.Certificate{SerialNumber: big.NewInt(515151), Subject: pkix.Name{CommonName: "alice"},
+							NotBefore: vclock.Now().Add(-time.Hour), NotAfter: vclock.Now().Add(24 * time.Hour),
+							KeyUsage: x509.KeyUsageDigitalSignature, ExtKeyUsage: []x509.ExtKeyUsage{x509.ExtKeyUsageClientAuth}}
+						switch signer {
+						case "user-ca":
+							ca, _ := x509.ParseCertificate(w.state.caCertDer[len(w.state.caCertDer)-1])
+							der, err := x509.CreateCertificate(rand.Reader, tmpl, ca, ck.pub, w.state.Signer)
+							vfMust(err)
+							leaf, _ = x509.ParseCertificate(der)
+						case "operator-ca-user":
+							der, err := x509.CreateCertificate(rand.Reader, tmpl, vfKeys.adminCACert, ck.pub, vfKeys.adminCA)
+							vfMust(err)
+							leaf, _ = x509.ParseCertificate(der)
+						default:
+							// with a (well-formed) address extension
+							tmpl.Subject.CommonName = vfAutoUser
+							nb := c11Corruptions()[8] // bits=8: 10.0.0.0/8
+							tmpl.ExtraExtensions = []pkix.Extension{{Id: asn1.ObjectIdentifier{1, 3, 6, 1, 5, 5, 7, 1, 7}, Value: nb.Value}}
+							var der []byte
+							var err error
+							if signer == "operator-ca" {
+								der, err = x509.CreateCertificate(rand.Reader, tmpl, vfKeys.adminCACert, ck.pub, vfKeys.adminCA)
+							} else {
+								ca, _ := x509.ParseCertificate(w.state.selfRoleCaCertDer)
+								der, err = x509.CreateCertificate(rand.Reader, tmpl, ca, ck.pub, w.state.Signer)
+							}
+							vfMust(err)
+							leaf, _ = x509.ParseCertificate(der)
+						}
+						tlsState := w.vfTLSFor(leaf)
+						for _, rt := range w.routes {
+							i++
+							if !c.Mine(i) {
+								continue
+							}
+							for _, method := range []string{"GET", "POST"} {
+								req := c06Build(w, c06Point{Route: rt.Name, Path: c06PathFor(rt.Pattern), Method: method, Origin: "absent"})
+								req.TLS, req.Remote = tlsState, "10.1.2.3:4000"
+								resp := w.Do(req.Build())
+								c.Eval(1)
+								p := c10Point{Part: "client-cert-key-type", Path: rt.Pattern, Seed: signer + ":" + ck.name, Mut: method}
+								if resp.Panic != nil {
+									c.Violate("C10|panic|client-certificate-key-type|"+ck.name, fmt.Sprintf("%s %s with a client certificate (key %s, issued by %s, verified chain=%v): panic %v\n%s", method, rt.Pattern, ck.name, signer, len(tlsState.VerifiedChains) > 0, resp.Panic, c10Trim(resp.PanicStack)), p)
+								} else {
+									c.Class(fmt.Sprintf("client-cert-key-type|%s|%s|%d", signer, ck.name, resp.Code/100), p)
+								}
 							}
 						}
 					}
